@@ -1472,6 +1472,9 @@ fn case_parallel(r: &mut Rng, out: &mut Out, cnt: i64, which: u64) {
         2 => vec![filt.clone(), Op::Project(vec![0])],
         3 => vec![Op::Distinct(Some(vec![1]))],
         4 => vec![Op::Sort(vec![Key { col: 1, asc: r.chance(1, 2), nf: false }, Key { col: 0, asc: true, nf: false }])],
+        // chains with a pipeline breaker inside (finalize_chain / push_through_from_index)
+        6 => vec![Op::Sort(vec![Key { col: 1, asc: r.chance(1, 2), nf: false }, Key { col: 0, asc: true, nf: false }]), filt.clone()],
+        7 => vec![filt.clone(), Op::Sort(vec![Key { col: 1, asc: r.chance(1, 2), nf: false }, Key { col: 0, asc: true, nf: false }]), Op::Project(vec![0, 1])],
         _ => vec![Op::Limit(r.below(cnt.max(1) as u64 + 5) as usize)],
     };
     let cols: Vec<Vec<Value>> = (0..2).map(|c| rows.iter().map(|x| x[c].clone()).collect()).collect();
@@ -1539,9 +1542,9 @@ fn case_parallel(r: &mut Rng, out: &mut Out, cnt: i64, which: u64) {
             want.sort();
             (None, base && ks == want && got.iter().all(|x| vrows[id(x) as usize] == *x) && got.len() <= want.len() * workers.max(1), format!("{} rows, {} keys", got.len(), ks.len()))
         }
-        4 => {
+        4 | 6 | 7 => {
             // one sorted chunk per worker: merge them with the real merge
-            let Op::Sort(keys) = &ops[0] else { unreachable!() };
+            let Some(Op::Sort(keys)) = ops.iter().find(|o| matches!(o, Op::Sort(_))) else { unreachable!() };
             let runs: Vec<Vec<DataChunk>> = res.chunks.iter().map(|c| vec![c.clone()]).collect();
             let each_sorted = res.chunks.iter().all(|c| is_sorted(keys, &rows_of(c)));
             let merged = flat(&rows_of_chunks(&par::merge_sorted_chunks(runs, &par_keys(keys), 2048).unwrap()));
@@ -2071,9 +2074,13 @@ fn main() {
         sizes.extend([16385, 65537]);
     }
     for (j, &cnt) in sizes.iter().enumerate() {
-        let reps = if thorough { 12 } else { 6 };
+        let reps = if thorough { 16 } else { 8 };
         for k in 0..reps {
-            let which = ((j + k) % 6) as u64;
+            let mut which = ((j + k) % 8) as u64;
+            // a sort hands ONE chunk with all its rows to the next operator: keep it below the u16 limit (C17-K3)
+            if which == 6 && cnt > 60000 {
+                which = 7;
+            }
             case_parallel(&mut r, &mut out, cnt, which);
         }
     }
